@@ -623,6 +623,8 @@ class Node:
             child.parent = None
         self.children = list()
         self.children_by_name = dict()
+        # Affinity counters are incremented when the children are added back.
+        self.affinity_counters = collections.Counter()
 
     def add_node(self, node):
         """Add child node, set the traits and propagate traits up.
